@@ -1,6 +1,7 @@
 package rules
 
 import (
+	"go/token"
 	"fmt"
 	"sort"
 	"strings"
@@ -13,7 +14,7 @@ import (
 func init() { register("C18", runC18) }
 
 func runC18(c *Check, tier string) {
-	c.Decides = "SIGINT and SIGTERM are both routed to the cancel function of the one context every command derives from; that context (through With* wrappers only) is the one handed to the command runner, the caches, the walker, the pool and the locker — no context.Background()/TODO() elsewhere and no function literal that is given a context uses a captured outer one instead; on cancellation the walk returns without blocking and the pool's workers and enqueue path have an exit; an interrupted command never reaches the result write (R05a) and the build exits non-zero (R05d); the next build can break the stale lock (R10b)."
+	c.Decides = "SIGINT and SIGTERM are both routed to the cancel function of the one context every command derives from; that context (through With* wrappers only) is the one handed to the command runner, the caches, the walker, the pool and the locker — no context.Background()/TODO() elsewhere and no function literal that is given a context uses a captured outer one instead; on cancellation the walk returns without blocking and the pool's workers and enqueue path have an exit; an interrupted command never reaches the result write (R05a) and the build exits non-zero (R05d); the next build can break the stale lock (R10b); semaphore slots are released on every path; the loader's queue consumers keep draining when the walker is awaited; a failed copy into a pipe closes it with the error."
 	c.NotDec = "promptness in wall-clock terms, signal delivery at every instant, behaviour of child processes that ignore SIGKILL."
 	ruleR18a(c)
 	ruleR18b(c, "R18b")
@@ -47,6 +48,194 @@ func runC18(c *Check, tier string) {
 	}
 	// a leaked semaphore slot turns into a wait that no signal ends
 	ruleSemaphorePairing(c, "R18h")
+	ruleQueueDrained(c, "R18i")
+	rulePipeErrorPropagated(c, "R18j")
+}
+
+// ruleQueueDrained (shared with C04): the package loader's workers consume a bounded queue that the file
+// walker fills. If the loading function blocks until the walker is done, the workers must keep draining
+// the queue until it is closed — a worker that returns from inside its queue loop (on cancellation, say)
+// leaves the walker blocked on a full queue and the loader waiting for it forever.
+func ruleQueueDrained(c *Check, rule string) {
+	c.Rule(rule, "in the function that starts the parallel file walker: when it waits for the walker goroutine (receive from a channel that goroutine closes, or a WaitGroup it is part of), no consumer of the walker's queue leaves its receive loop before the queue is closed", 1)
+	var lp *ssa.Function
+	var mk ssa.CallInstruction
+	for _, s := range c.G.CallsTo("github.com/boyter/gocodewalker.NewParallelFileWalker") {
+		if engine.InPackage(s.Parent(), "loading") {
+			lp, mk = engine.TopFunc(s.Parent()), s
+		}
+	}
+	if lp == nil {
+		c.Unknown(rule, "anchor/file-walker", "anchor-unresolved: no NewParallelFileWalker call in internal/loading", "-")
+		return
+	}
+	fname := c.P.FuncName(lp)
+	queue := mk.Common().Args[len(mk.Common().Args)-1]
+	sameChan := func(a, b ssa.Value) bool {
+		ra, rb := engine.Origins(a), engine.Origins(b)
+		for _, x := range ra {
+			for _, y := range rb {
+				if x != nil && x == y {
+					return true
+				}
+			}
+		}
+		return sameVar(a, b) || engine.ExprKey(a) == engine.ExprKey(b)
+	}
+	lits := engine.AnonFuncsDeep(lp)
+	// is the walker goroutine awaited?
+	awaited := ""
+	for _, b := range lp.Blocks {
+		for _, in := range b.Instrs {
+			g, ok := in.(*ssa.Go)
+			if !ok {
+				continue
+			}
+			var body *ssa.Function
+			if mc, ok := g.Call.Value.(*ssa.MakeClosure); ok {
+				body, _ = mc.Fn.(*ssa.Function)
+			}
+			if body == nil {
+				continue // `go walker.Start()`: nothing signals its end
+			}
+			startsWalker := false
+			for _, s := range engine.SitesIn(body) {
+				if strings.HasSuffix(engine.CalleeName(s), "gocodewalker.FileWalker).Start") {
+					startsWalker = true
+				}
+			}
+			if !startsWalker {
+				continue
+			}
+			for _, s := range engine.SitesIn(body) {
+				cc := s.Common()
+				if bi, ok := cc.Value.(*ssa.Builtin); ok && bi.Name() == "close" {
+					// the spawner receives from that channel outside any select with alternatives
+					for _, bb := range lp.Blocks {
+						for _, in2 := range bb.Instrs {
+							if u, ok := in2.(*ssa.UnOp); ok && u.Op == token.ARROW && sameChan(u.X, cc.Args[0]) {
+								awaited = "the loader receives from the channel the walker goroutine closes (" + c.P.InstrPos(u) + ")"
+							}
+						}
+					}
+				}
+				if engine.CalleeName(s) == "(*sync.WaitGroup).Done" {
+					for _, w := range callsNamed(lp, "(*sync.WaitGroup).Wait") {
+						if sameChan(w.Common().Args[0], cc.Args[0]) || engine.ExprKey(w.Common().Args[0]) == engine.ExprKey(cc.Args[0]) {
+							awaited = "the walker goroutine is part of the WaitGroup the loader waits for"
+						}
+					}
+				}
+			}
+		}
+	}
+	// consumers: literals with a receive loop on the queue
+	n := 0
+	for _, lit := range lits {
+		for _, l := range engine.LoopsOf(lit) {
+			recv := false
+			for _, in := range l.Header.Instrs {
+				if u, ok := in.(*ssa.UnOp); ok && u.Op == token.ARROW && u.CommaOk && sameChan(u.X, queue) {
+					recv = true
+				}
+			}
+			if !recv {
+				continue
+			}
+			n++
+			isRet := func(in ssa.Instruction) bool { _, r := in.(*ssa.Return); return r }
+			why := l.EarlyExitReaches(isRet)
+			key := "queue-drained/" + c.P.FuncName(lit)
+			if why == "" {
+				c.OK(rule, key, "the consumer leaves its loop only when the queue is closed", c.P.Pos(lit.Pos()))
+			} else if awaited == "" {
+				c.OK(rule, key, "the consumer can leave early, but the loader does not wait for the walker goroutine", c.P.Pos(lit.Pos()))
+			} else {
+				c.Bad(rule, key, "a consumer of the walker's bounded queue can return before the queue is closed ("+why+") while "+awaited+": once the remaining files exceed the queue's free slots the walker blocks on its send and the loader never returns — no signal ends that wait", c.P.Pos(lit.Pos()))
+			}
+		}
+	}
+	if n == 0 {
+		c.Unknown(rule, "queue-drained/"+fname, "no goroutine with a receive loop on the walker's queue found", "-")
+	}
+}
+
+// rulePipeErrorPropagated (shared with C07/C08): when the copy that feeds an io.Pipe fails, the write end
+// is closed *with that error* before the function returns; a plain Close (also a deferred one) tells the
+// reader "end of stream" and the consumer commits a truncated blob as if it were complete.
+func rulePipeErrorPropagated(c *Check, rule string) {
+	c.Rule(rule, "for every io.Copy into an io.PipeWriter (directly or through io.MultiWriter): from the copy's err != nil branch every path to the function's return passes CloseWithError on each of those pipe writers", 1)
+	n := 0
+	for _, cp := range c.G.CallsTo("io.Copy", "io.CopyBuffer", "io.CopyN") {
+		fn := cp.Parent()
+		if !c.P.FuncSet[engine.TopFunc(fn)] && !c.P.FuncSet[fn] {
+			continue
+		}
+		// pipe writers behind the destination
+		var writers []ssa.Value
+		var collect func(v ssa.Value, d int)
+		collect = func(v ssa.Value, d int) {
+			if d > 4 {
+				return
+			}
+			for _, o := range engine.Origins(v) {
+				if o == nil {
+					continue
+				}
+				if strings.HasSuffix(o.Type().String(), "io.PipeWriter") {
+					writers = append(writers, o)
+					continue
+				}
+				if call, _ := engine.CallOf(o); call != nil && engine.CalleeName(call) == "io.MultiWriter" {
+					for _, a := range call.Common().Args {
+						if sl, ok := a.(*ssa.Slice); ok {
+							if al, ok := sl.X.(*ssa.Alloc); ok {
+								for _, ref := range *al.Referrers() {
+									if ia, ok := ref.(*ssa.IndexAddr); ok {
+										for _, r2 := range *ia.Referrers() {
+											if st, ok := r2.(*ssa.Store); ok && st.Addr == ssa.Value(ia) {
+												collect(st.Val, d+1)
+											}
+										}
+									}
+								}
+							}
+						} else {
+							collect(a, d+1)
+						}
+					}
+				}
+			}
+		}
+		collect(cp.Common().Args[0], 0)
+		if len(writers) == 0 {
+			continue
+		}
+		n++
+		isRet := func(in ssa.Instruction) bool { _, r := in.(*ssa.Return); return r && in.Parent() == fn }
+		bad := ""
+		for _, w := range writers {
+			closesWithErr := func(in ssa.Instruction) bool {
+				call, ok := in.(*ssa.Call)
+				if !ok || engine.CalleeName(call) != "(*io.PipeWriter).CloseWithError" {
+					return false
+				}
+				for _, o := range engine.Origins(call.Call.Args[0]) {
+					if o == w {
+						return true
+					}
+				}
+				return sameVar(call.Call.Args[0], w)
+			}
+			if lost, at := engine.PathExists(fn, cp, isRet, engine.PathQuery{CutEdge: engine.NilErrEdgesOf(cp), CutInstr: closesWithErr, Shallow: true}); lost {
+				bad = "after a failed copy the function can return (" + c.P.InstrPos(at) + ") without CloseWithError on a pipe it feeds"
+			}
+		}
+		c.Require(bad == "", rule, "pipe-error-propagated/"+c.P.FuncName(fn), "a failed copy closes every fed pipe with the error", bad+": the reader side sees a clean end of stream and stores the partial content under the full key (an interrupted or failed upload poisons the local cache)", c.P.InstrPos(cp))
+	}
+	if n == 0 {
+		c.Unknown(rule, "pipe-error-propagated", "no io.Copy into a pipe writer found", "-")
+	}
 }
 
 func ruleR18a(c *Check) {
